@@ -418,18 +418,26 @@ class TaskManager(rpu.ClientComponent):
                     self._log.debug('tmgr: state known: %s', uid)
                     continue
 
-                target, passed = rps._task_state_progress(uid, current, target)
+                try:
+                    target, passed = rps._task_state_progress(uid, current,
+                                                              target)
 
-                if target in [rps.CANCELED, rps.FAILED]:
-                    # don't replay intermediate states
-                    passed = passed[-1:]
+                    if target in [rps.CANCELED, rps.FAILED]:
+                        # don't replay intermediate states
+                        passed = passed[-1:]
 
-                for s in passed:
+                    for s in passed:
 
-                    task_dict['state'] = s
-                    self._tasks[uid]._update(task_dict)
+                        task_dict['state'] = s
+                        self._tasks[uid]._update(task_dict)
 
-                    to_notify.append([task, s])
+                        to_notify.append([task, s])
+
+                except Exception:
+                    # a contradicting or invalid update for one task must not
+                    # prevent the updates of the other tasks in this bulk
+                    self._log.exception('tmgr: invalid state update: %s', uid)
+                    continue
 
                 task_dict['state'] = self._tasks[uid].state
                 ru.dict_merge(self._task_info[uid], task_dict, ru.OVERWRITE)
